@@ -1,6 +1,6 @@
 (* C17 — property theorems only. Each is closed by [exact] of a lemma of Proofs_sill.v / Proofs_par.v. *)
 From Coq Require Import List Arith ZArith QArith Bool Lia.
-From Gst Require Import lib.QAux lib.LinAlgQ C17.Model C17.ModelPar C17.Proofs_sill C17.Proofs_par.
+From Gst Require Import lib.QAux lib.LinAlgQ C17.Model C17.ModelPar C17.ModelMap C17.Proofs_sill C17.Proofs_par C17.Proofs_map C17.Proofs_goulard.
 Import ListNotations.
 Local Open Scope Q_scope.
 
@@ -254,6 +254,106 @@ Theorem C17_ranges_isotropic : forall ranges v, Forall (fun x => x = v) (range_w
 Proof. exact range_write_iso. Qed.
 Print Assumptions C17_ranges_isotropic.
 
+(* ================================================================== 3. one Goulard step *)
+
+(* the term written for the pair of variables ij of structure icov (before truncation) minimises, over that term, the part
+   of the weighted sum of squares it enters -- for any data, any other structures (mp1), non-negative weights; a pair
+   without weighted lag included *)
+Theorem C17_goulard_entry_minimiser : forall c icov mp1 ij s,
+  (ij < g_nvar c * (g_nvar c + 1) / 2)%nat -> (forall ip, 0 <= wt_val c ij ip) ->
+  entry_crit c icov mp1 ij (cc_entry c icov (fk c icov) mp1 ij) <= entry_crit c icov mp1 ij s.
+Proof. exact entry_minimiser. Qed.
+Print Assumptions C17_goulard_entry_minimiser.
+
+(* a step of the loop at which the solver reports no negative eigenvalue (nothing is truncated) never increases the
+   criterion.  PARTIAL with respect to "monotone decrease of every step": after a truncation the new sill is the Frobenius
+   projection of the minimiser, which is not the constrained minimiser of the weighted criterion; nothing is claimed there *)
+Theorem C17_goulard_step_decrease_partial : forall c eig icov st st',
+  (forall ij ip, 0 <= wt_val c ij ip) ->
+  step_icov c eig (map (fk c) (seq 0 (g_ncova c))) icov st = Some st' ->
+  (icov < g_ncova c)%nat ->
+  (forall cc lam V, eig (g_calls st) cc = Some (lam, V) -> allpos (g_nvar c) (vget lam) = true) ->
+  crit_of c (g_mp st') <= crit_of c (g_mp st).
+Proof. exact step_decrease. Qed.
+Print Assumptions C17_goulard_step_decrease_partial.
+
+(* ================================================================== 4. parameter vector -> Model *)
+
+(* a direction that has no RANGE parameter of its own (locked: lock_iso2d, lock_no3d, isotropy in the plane ...) takes the
+   range of rank 0 of the structure *)
+Theorem C17_ranges_locked : forall icov pre vpre p0 v0 rest vrest ranges k d,
+  length pre = length vpre -> own icov E_RANGE p0 = true -> p_ivar p0 = 0%Z -> (k < length ranges)%nat ->
+  range_untouched icov k rest ->
+  nth k (ranges_of icov (pre ++ p0 :: rest) (vpre ++ v0 :: vrest) ranges) d = v0.
+Proof. exact ranges_locked. Qed.
+Print Assumptions C17_ranges_locked.
+
+(* ... and the list st_parid_alloc builds for a structure has exactly that shape *)
+Theorem C17_ranges_alloc_shape : forall o ndim nvar jcov ch first,
+  (0 <? c_flag_range ch)%Z = true ->
+  exists pre rest,
+    fst (parids_cov o ndim nvar jcov ch first) = pre ++ mkP 0 jcov E_RANGE 0 0 :: rest /\
+    forall k, (forall p, In p (anicoef_parids o ndim jcov) -> p_ivar p <> Z.of_nat k) -> range_untouched jcov k rest.
+Proof. exact parids_cov_range_shape. Qed.
+Print Assumptions C17_ranges_alloc_shape.
+
+(* round trip: the Model read back at the place a parameter designates gives the value of that parameter (ranges with
+   anisotropy authorised, angles, third parameter), provided no later parameter of the structure designates the same place *)
+Theorem C17_params_roundtrip_range : forall nvar ch icov pre vpre p v rest vrest c0 k,
+  Z.eqb (c_flag_range ch) 0 = false ->
+  length pre = length vpre -> own icov E_RANGE p = true -> p_ivar p = Z.of_nat k -> (k < length (cv_ranges c0))%nat ->
+  range_untouched icov k rest ->
+  read_field p (define_cova true nvar ch icov (pre ++ p :: rest) (vpre ++ v :: vrest) c0) = Some v.
+Proof. exact roundtrip_range. Qed.
+Print Assumptions C17_params_roundtrip_range.
+
+Theorem C17_params_roundtrip_angle : forall aniso nvar ch icov pre vpre p v rest vrest c0 k,
+  Z.eqb (c_flag_range ch) 0 = false ->
+  length pre = length vpre -> own icov E_ANGLE p = true -> p_ivar p = Z.of_nat k -> (k < length (cv_angles c0))%nat ->
+  angle_untouched icov k rest ->
+  read_field p (define_cova aniso nvar ch icov (pre ++ p :: rest) (vpre ++ v :: vrest) c0) = Some v.
+Proof. exact roundtrip_angle. Qed.
+Print Assumptions C17_params_roundtrip_angle.
+
+Theorem C17_params_roundtrip_param : forall aniso nvar ch icov pre vpre p v rest vrest c0,
+  c_flag_param ch = true ->
+  length pre = length vpre -> own icov E_PARAM p = true ->
+  (forall q, In q rest -> own icov E_PARAM q = false) ->
+  read_field p (define_cova aniso nvar ch icov (pre ++ p :: rest) (vpre ++ v :: vrest) c0) = Some v.
+Proof. exact roundtrip_param. Qed.
+Print Assumptions C17_params_roundtrip_param.
+
+(* isotropy: every direction of a structure with a range carries the same value, whatever the parameters *)
+Theorem C17_define_isotropic : forall nvar ch icov ps vals c0,
+  Z.eqb (c_flag_range ch) 0 = false -> has_parid icov ps = true ->
+  exists r, Forall (fun x => x = r) (cv_ranges (define_cova false nvar ch icov ps vals c0)).
+Proof. exact define_cova_isotropic. Qed.
+Print Assumptions C17_define_isotropic.
+
+(* sills as parameters (Goulard off): the sill matrix is L L' -- symmetric PSD for ANY parameter values, any packing *)
+Theorem C17_aic_sill_psd : forall n tri,
+  fsym n (get (tltu n tri)) /\ forall x, 0 <= fdot n x (fmv n (get (tltu n tri)) x).
+Proof. intros n tri. split; [exact (tltu_sym n tri) | exact (tltu_psd n tri)]. Qed.
+Print Assumptions C17_aic_sill_psd.
+
+(* lock_samerot: the ANGLE parameters all belong to one structure *)
+Theorem C17_options_samerot : forall o ndim nvar chars p q,
+  o_samerot o = true ->
+  In p (parid_alloc o ndim nvar chars) -> In q (parid_alloc o ndim nvar chars) ->
+  is_angle p = true -> is_angle q = true -> p_icov p = p_icov q.
+Proof. intros o ndim nvar chars p q Hs. apply (parid_alloc_samerot o ndim nvar chars 0%Z (-1)%Z Hs). lia. Qed.
+Print Assumptions C17_options_samerot.
+
+(* constant sill, st_updateAlphaDiag: the new term is >= 0 and makes the sills of the variable add up to the constant sill,
+   unless the other structures already exceed it *)
+Theorem C17_constant_sill_diag : forall cons xr srm,
+  0 <= alpha_diag cons xr srm /\
+  (~ xr == 0 ->
+   (srm * (xr * xr) <= cons -> xr * xr * (srm + alpha_diag cons xr srm) == cons) /\
+   (cons <= srm * (xr * xr) -> xr * xr * (srm + alpha_diag cons xr srm) == xr * xr * srm)).
+Proof. intros. split; [apply alpha_diag_nonneg | apply alpha_diag_sum]. Qed.
+Print Assumptions C17_constant_sill_diag.
+
 (* ================================================================== non-vacuity *)
 Definition ex_S : fmat := fun i j => match i, j with O, O => 1 | 1%nat, 1%nat => 1 | O, 1%nat => 2 | 1%nat, O => 2 | _, _ => 0 end.
 Definition ex_lam : fvec := fun k => match k with O => 3 | _ => -(1) end.
@@ -368,3 +468,37 @@ Example C17_angle_nonvacuous :
   imposed_angles items ps 1 [0; 0] = [30; 0] /\ imposed_angles items ps 2 [5; 0] = [5; 0] /\
   imposed_angles (mkI 0 3 E_ANGLE 0 0 T_EQUAL (Some 60) :: items) ps 3 [7; 0] = [7; 0].
 Proof. vm_compute. repeat split; reflexivity. Qed.
+
+(* one Goulard step on ex_gc (non-negative weights): the entry written beats two other candidates; without truncation
+   (first structure, second call of ex_eig reports no negative eigenvalue?) the criterion of the sweep does not go up *)
+Example C17_goulard_step_nonvacuous :
+  let mp1 := [[1; 1; 1]; [0; 0; 0]; [1; 1; 1]] in
+  let s := cc_entry ex_gc 1 (fk ex_gc 1) mp1 0 in
+  Qle_bool (entry_crit ex_gc 1 mp1 0%nat s) (entry_crit ex_gc 1 mp1 0%nat (s + 1)) = true /\
+  Qle_bool (entry_crit ex_gc 1 mp1 0%nat s) (entry_crit ex_gc 1 mp1 0%nat 0) = true /\
+  Qeq_bool (entry_crit ex_gc 1 mp1 0%nat s) (entry_crit ex_gc 1 mp1 0%nat (s + 1)) = false.
+Proof. vm_compute. repeat split; reflexivity. Qed.
+
+(* 3-D structure, anisotropy authorised, direction Y locked (lock_iso2d): parameters RANGE 0 and RANGE 2 only *)
+Example C17_map_nonvacuous :
+  let ps := [mkP 0 0 E_SILL 0 0; mkP 0 1 E_PARAM 0 0; mkP 0 1 E_RANGE 0 0; mkP 0 1 E_RANGE 2 0; mkP 0 1 E_ANGLE 0 0] in
+  let vals := [3; 3 # 2; 5; 2; 30] in
+  let c0 := mkCv [9; 9; 9] [0; 0; 0] 1 [[1]] in
+  let ch := mkC 1 true (Some 2) false false in
+  let c1 := define_cova true 1 ch 1 ps vals c0 in
+  cv_ranges c1 = [5; 5; 2] /\ cv_angles c1 = [30; 0; 0] /\ cv_param c1 = 3 # 2 /\
+  cv_ranges (define_cova false 1 ch 1 ps vals c0) = [5; 5; 5] /\
+  Qeq_bool (get (cv_sill (define_cova true 1 (mkC 0 false None true false) 0 ps vals c0)) 0%nat 0%nat) 9 = true /\
+  read_field (mkP 0 1 E_RANGE 2 0) c1 = Some 2.
+Proof. vm_compute. repeat split; reflexivity. Qed.
+
+Example C17_samerot_nonvacuous :
+  let o := mkO false true true true true false false false false false in
+  let chars := [mkC 0 false None true false; mkC 1 false None false false; mkC 1 false None false false] in
+  map p_icov (filter is_angle (parid_alloc o 2 1 chars)) = [1%Z] /\
+  map p_icov (filter is_angle (parid_alloc (set_samerot o false) 2 1 chars)) = [1%Z; 2%Z].
+Proof. vm_compute. split; reflexivity. Qed.
+
+Example C17_constant_sill_nonvacuous :
+  Qeq_bool (alpha_diag 4 2 (1 # 2)) (1 # 2) = true /\ Qeq_bool (alpha_diag 4 2 3) 0 = true.
+Proof. vm_compute. split; reflexivity. Qed.
